@@ -33,6 +33,22 @@ BPM_POOLS = [
 
 
 def family(name, seed=0):
+    if name == "fast":
+        # the upper end of the BPM range: a tick lasts well under a millisecond
+        return {
+            "bpms": (Fraction(1920), Fraction(960), Fraction(1536)),
+            "stops": (Fraction(1, 2), Fraction(1, 64), Fraction(1, 4), Fraction(1, 128)),
+            "delays": (Fraction(1, 64), Fraction(1, 2), Fraction(1, 128), Fraction(1, 4)),
+            "exact": True,
+        }
+    if name == "slow":
+        # the lower end: one beat lasts up to a minute
+        return {
+            "bpms": (Fraction(1), Fraction(2), Fraction(15, 2)),
+            "stops": (Fraction(1, 2), Fraction(1, 4), Fraction(1, 2), Fraction(1, 4)),
+            "delays": (Fraction(1, 4), Fraction(1, 2), Fraction(1, 8), Fraction(1, 4)),
+            "exact": True,
+        }
     if name == "dyadic":
         return {
             "bpms": BPM_POOLS[seed % len(BPM_POOLS)],
